@@ -57,6 +57,12 @@ def check(prog: Program, run: Run) -> None:
     run.rule("C14.R4", "the pattern parsers read the addressing flag and the expected values "
              "completely: xsd:boolean text is converted for all four spellings, optional elements "
              "are read independently", floor=3)
+    run.rule("C14.R5", "the value compared with the pattern is the one the shared decoder "
+             "produces for the identification parameter; a BIT-MASK on a byte-field parameter is "
+             "applied in the byte order the expected value is written in (shared with C02.R2)",
+             floor=4)
+    from . import c02
+    c02.mask_byte_order(prog, run, "C14.R5")
     from . import common
     PARSERS = ["odxtools/matching*.py", "odxtools/*variantpattern.py", "odxtools/odxtypes.py"]
     common.g8_xsd_boolean(prog, run, "C14.R4", PARSERS)
